@@ -18,12 +18,14 @@ def gen():
 
 
 def run(tier, replay=None):
-    rep = mhlib.run_property("C10", ["mur"], tier, replay, n_quick=900, n_thorough=16000, rng_salt=10,
+    rep = mhlib.run_property("C10", ["mur"], tier, replay, n_quick=800, n_thorough=16000, rng_salt=10,
                              extra_assumptions=["_murmur3_x64_128_block / _tail (C) are modelled by Spec/Murmur3.v's mur_body / mur_tail"])
     rep.cov["rule"] = ("cases = (seed, stream <= 8 KiB (thorough 16 KiB), partition into update calls, placements) x families "
                        "{base,sse,avx,avx2,avx512} direct entry points, every 3rd case also through isal_* under 5 virtual CPUID presets + legacy "
                        "names; half of the stream lengths from the grid (len mod 16 = 0..15) x (whole 16-byte blocks in the partial buffer in "
                        "{0,1,2,31,62,63,uniform}) x (0..3 whole 1024-byte blocks), the rest from the C05 boundary set / uniform; seeds from "
                        "{0, 2^64-1, 2^32-1, 2^32, 1, 0x9747b28c, 2^63} or uniform 64-bit; partitions as in C05 (incl. 16-byte-granular cuts +-1); "
-                       "distinct = distinct (case, family); non-trivial = non-empty stream")
+                       "plus 33 state-injection cases per algorithm (total_length around 2^29, 2^30, 2^31, 2^32 - 5 KiB, random interim digests, short suffix) "
+                       "and 2 real streams of 2^29 / 2^29 + r bytes per algorithm (thorough: up to 2^32 - 1 KiB) whose expected value is the model "
+                       "continued from the context observed after the natively hashed prefix; distinct = distinct (case, family); non-trivial = non-empty stream")
     return rep.finish()
